@@ -356,6 +356,8 @@ def run(ctx):
             inner = f.impl_adt and f.impl_adt.endswith("OrderBookSide")
             if inner and p.kind.startswith("overflow:Add"):
                 reason = "sums of stored remaining volumes / counts on one side stay below 2^32 for snapshots written from a valid book"
+            if reason is None and p.kind in ("index", "bounds") and p.expr is not None:
+                reason = index_within_len(q, p)
             key = "%s|%s" % (f.short(), p.kind)
             if reason:
                 ctx.ok("load-abort-free", p.loc(), "%s -- discharged: %s" % (p.text(), reason))
@@ -364,3 +366,29 @@ def run(ctx):
     ctx.check(len(reach) >= 20, "load-abort-free", "census", "-", "%d repository functions on the load path scanned, %d panic-capable sites" % (len(reach), n))
     ctx.assume("serde_json 1.0.114 rejects every strict prefix of a JSON object document (trusted)")
     ctx.assume("tie caveat: equal keys in stored data are impossible after the C05 stamp rule")
+
+
+def index_within_len(q, p):
+    """`for i in 0..c.len() { .. c[i] .. }`: the index is the item of a loop over the range 0..len(c) of the very container indexed"""
+    from analysis.iterelem import iterator_expr, is_range
+    from analysis.typestate import same
+    from analysis.origin import strip
+    e = p.expr
+    if p.kind == "index" and e[0] == "index":
+        cont, idx = strip(e[1]), strip(e[2])
+    elif p.kind == "bounds" and e[0] == "bin" and e[1] == "Lt" and e[3][0] == "call" and e[3][4] == "len" and e[3][2]:
+        cont, idx = strip(e[3][2][0]), strip(e[2])
+    else:
+        return None
+    for c in q.calls("next"):
+        item = ("field", ("downcast", c.result, "Some"), "0", "std::option::Option")
+        if not same(strip(idx), strip(item)):
+            continue
+        it = iterator_expr(q, c)
+        while it is not None and it[0] == "call" and it[2] and it[4] in ("into_iter", "iter"):
+            it = it[2][0]
+        if it is not None and is_range(it):
+            lo, hi = it[3]
+            if lo[0] == "const" and lo[3] == 0 and hi[0] == "call" and hi[4] == "len" and hi[2] and same(strip(hi[2][0]), cont):
+                return "index is the item of a loop over 0..len() of the indexed container"
+    return None
